@@ -1,1 +1,1206 @@
-//! (stub — being implemented)
+//! Manifest-definition generator (DESIGN §3.2), shared by C03 / C22 and usable by other checks.
+//!
+//! A case is a compact, serde-serialisable [`DefSpec`] (small integers + a seed).  [`expand`] turns
+//! it deterministically (only `SplitMix64(spec.seed)`) into a [`GenDef`]: the `ManifestDefinition`
+//! JSON, the intent, the ingredients that have to be added from streams, the resources that have
+//! to be registered, and an *independent expectation* of what a reader must report (computed here
+//! from the generated data, never by asking the SDK).
+//!
+//! Well-formedness is by construction.  A definition rejected by `Builder::with_definition` / `sign`
+//! is a `generator_rejected` case for the caller to count (> 5 % means this generator is wrong).
+//!
+//! The only SDK calls in this module are (a) `BuilderIntent`/`DigitalSourceType` construction,
+//! (b) [`GenDef::builder`] which feeds the generated data into a `Builder`, and (c) signing the
+//! "harness-signed" ingredient assets once per process ([`signed_asset`]).
+
+use std::{io::Cursor, sync::Mutex};
+
+use c2pa::{Builder, BuilderIntent, Context, DigitalSourceType};
+use proptest::prelude::*;
+use serde::{Deserialize, Serialize};
+use serde_json::{json, Map, Value};
+
+use crate::rng::SplitMix64;
+
+// ------------------------------------------------------------------------------------------------
+// public types
+// ------------------------------------------------------------------------------------------------
+
+#[derive(Clone, Debug, Serialize, Deserialize, PartialEq, Eq, Hash)]
+pub enum IntentKind {
+    /// `BuilderIntent::Create(<digital source type URI>)`
+    Create(String),
+    Edit,
+    Update,
+    /// No intent: the definition itself carries a leading `c2pa.created` action (claim v2 rule).
+    None,
+}
+
+impl IntentKind {
+    pub fn to_builder_intent(&self) -> Option<BuilderIntent> {
+        match self {
+            IntentKind::Create(uri) => {
+                let st: DigitalSourceType =
+                    serde_json::from_value(Value::String(uri.clone())).unwrap_or(DigitalSourceType::Empty);
+                Some(BuilderIntent::Create(st))
+            }
+            IntentKind::Edit => Some(BuilderIntent::Edit),
+            IntentKind::Update => Some(BuilderIntent::Update),
+            IntentKind::None => None,
+        }
+    }
+    pub fn name(&self) -> &'static str {
+        match self {
+            IntentKind::Create(_) => "create",
+            IntentKind::Edit => "edit",
+            IntentKind::Update => "update",
+            IntentKind::None => "none",
+        }
+    }
+}
+
+/// Where the bytes of a stream ingredient come from.
+#[derive(Clone, Debug, Serialize, Deserialize, PartialEq, Eq, Hash)]
+pub enum IngSource {
+    /// Ingredient described only by JSON inside the definition (`ingredients: [...]`).
+    JsonOnly,
+    /// Repository fixture without a manifest: (file name, mime).
+    Unsigned(String, String),
+    /// Repository fixture that already carries a manifest store: (file name, mime).
+    SignedFixture(String, String),
+    /// Asset signed by the harness in this process (see [`signed_asset`]): kind index.
+    HarnessSigned(u8),
+}
+
+#[derive(Clone, Debug)]
+pub struct IngPlan {
+    pub json: Value,
+    pub source: IngSource,
+}
+
+/// How an expected assertion is compared with the reported one.
+#[derive(Clone, Debug, PartialEq, Eq)]
+pub enum Match {
+    /// reported payload must be equivalent (JSON equality, numbers by value) to the supplied one
+    Exact,
+    /// `c2pa.actions`: every supplied action appears, in order, as a sub-sequence of the reported
+    /// actions with all supplied members equal; other supplied top-level members equal
+    Actions,
+    /// typed standard assertion: every supplied top-level member is reported with an equal value
+    Members,
+}
+
+#[derive(Clone, Debug)]
+pub struct ExpAssertion {
+    /// label as supplied (base label; the reader reports repeated labels as instances)
+    pub label: String,
+    pub payload: Value,
+    pub how: Match,
+    pub json_kind: bool,
+    pub created: bool,
+}
+
+#[derive(Clone, Debug)]
+pub struct ExpIngredient {
+    pub title: Option<String>,
+    pub format: Option<String>,
+    pub relationship: String,
+    pub has_manifest: bool,
+    pub description: Option<String>,
+    pub informational_uri: Option<String>,
+}
+
+#[derive(Clone, Debug, PartialEq, Eq)]
+pub enum ResKind {
+    ClaimThumbnail,
+    IngredientThumbnail(usize),
+    IngredientData(usize),
+    GeneratorIcon(usize),
+}
+
+#[derive(Clone, Debug)]
+pub struct ExpResource {
+    pub kind: ResKind,
+    pub format: String,
+    pub bytes: Vec<u8>,
+}
+
+#[derive(Clone, Debug, Default)]
+pub struct Expectation {
+    pub title: Option<String>,
+    /// `None`: the format is whatever is passed to `sign` (the definition does not carry one).
+    pub format: Option<String>,
+    /// supplied claim generator info entries (empty = the SDK default entry is used)
+    pub claim_generator_info: Vec<Value>,
+    pub claim_version: u8,
+    pub hash_alg: Option<String>,
+    pub vendor: Option<String>,
+    pub assertions: Vec<ExpAssertion>,
+    /// in reported order: definition (JSON-only) ingredients first, then stream ingredients
+    pub ingredients: Vec<ExpIngredient>,
+    /// Edit/Update intent without an explicit parent: the SDK derives a `parentOf` ingredient from
+    /// the source stream (documented in docs/intents.md) — one extra ingredient is then allowed.
+    pub auto_parent: bool,
+    pub redactions: Vec<String>,
+    pub resources: Vec<ExpResource>,
+}
+
+#[derive(Clone, Debug)]
+pub struct GenDef {
+    /// the `ManifestDefinition` JSON
+    pub json: Value,
+    pub intent: IntentKind,
+    pub expect: Expectation,
+    pub features: Vec<String>,
+    /// ingredients to add with `Builder::add_ingredient_from_stream` (after the definition)
+    pub stream_ingredients: Vec<IngPlan>,
+    /// resources to register with `Builder::add_resource`
+    pub resources: Vec<(String, Vec<u8>)>,
+    /// largest CBOR length boundary crossed by a payload (0, 24, 256, 65536)
+    pub boundary: u32,
+}
+
+/// Knobs for callers; the strategy never produces what is switched off.
+#[derive(Clone, Debug)]
+pub struct DefOpts {
+    pub max_assertions: u8,
+    pub max_ingredients: u8,
+    pub allow_v1: bool,
+    pub allow_edit: bool,
+    pub allow_update: bool,
+    /// payloads around the 65535/65536 boundary (tens of KB to ~1 MB of JSON)
+    pub allow_huge: bool,
+    pub allow_redactions: bool,
+    pub allow_resources: bool,
+    pub allow_signed_ingredients: bool,
+    pub allow_hash_alg: bool,
+}
+
+impl Default for DefOpts {
+    fn default() -> Self {
+        DefOpts {
+            max_assertions: 6,
+            max_ingredients: 3,
+            allow_v1: true,
+            allow_edit: true,
+            allow_update: false,
+            allow_huge: true,
+            allow_redactions: true,
+            allow_resources: true,
+            allow_signed_ingredients: true,
+            allow_hash_alg: true,
+        }
+    }
+}
+
+/// Compact, replayable description of one definition.  Small values = simple definitions, so
+/// proptest shrinking moves toward `DefSpec::default()`.
+#[derive(Clone, Debug, Default, Serialize, Deserialize, PartialEq, Eq, Hash)]
+pub struct DefSpec {
+    pub seed: u64,
+    /// 0 ascii, 1 absent, 2 empty, 3 unicode, 4 long, 5 special characters, 6 boundary lengths
+    pub title: u8,
+    /// 0 name+version, 1 absent (SDK default), 2 name only, 3 extra keys, 4 two entries, 5 unicode/space name
+    pub cgi: u8,
+    pub claim_v1: bool,
+    /// 0 Create(empty), 1 Create(random type), 2 none + leading created action, 3 Edit (auto parent),
+    /// 4 Edit with explicit parent ingredient, 5 Update
+    pub intent: u8,
+    pub n_assertions: u8,
+    pub n_ingredients: u8,
+    /// 0 small, 1 around 23/24, 2 around 255/256, 3 around 65535/65536, 4 deep nesting, 5 scalar/array top level
+    pub size_class: u8,
+    /// 0 absent, 1 sha256, 2 sha384, 3 sha512
+    pub hash_alg: u8,
+    /// 0 no explicit thumbnail, 1 explicit claim thumbnail resource
+    pub thumb: u8,
+    /// 0 none, 1 ingredient thumbnail / data resources, 2 + claim generator icon
+    pub resources: u8,
+    pub vendor: bool,
+    pub redact: bool,
+}
+
+// ------------------------------------------------------------------------------------------------
+// strategy
+// ------------------------------------------------------------------------------------------------
+
+pub fn spec_strategy(opts: DefOpts) -> impl Strategy<Value = DefSpec> {
+    let o = opts.clone();
+    (
+        (any::<u64>(), 0u8..7, 0u8..6, any::<bool>(), 0u8..6, 0u8..=opts.max_assertions),
+        (0u8..=opts.max_ingredients, 0u8..12, 0u8..4, 0u8..3, 0u8..4, any::<bool>(), 0u8..4),
+    )
+        .prop_map(move |((seed, title, cgi, v1, intent, na), (ni, size, hash, thumb, res, vendor, redact))| {
+            let mut s = DefSpec {
+                seed,
+                title,
+                cgi,
+                claim_v1: v1 && o.allow_v1 && seed % 3 == 0, // v1 in about 1/6 of the cases
+                intent,
+                n_assertions: na,
+                n_ingredients: ni,
+                // half of the cases small payloads, the rest spread over the boundary classes
+                size_class: if size >= 6 { 0 } else { size },
+                hash_alg: if o.allow_hash_alg { hash } else { 0 },
+                thumb: if thumb == 2 { 1 } else { 0 },
+                resources: if o.allow_resources { res.min(2) } else { 0 },
+                vendor: vendor && seed % 5 == 0,
+                redact: redact == 0 && o.allow_redactions,
+            };
+            normalise(&mut s, &o);
+            s
+        })
+}
+
+/// Clamp a spec to what `opts` allows (also applied to hand-written / replayed specs).
+pub fn normalise(s: &mut DefSpec, o: &DefOpts) {
+    if !o.allow_v1 {
+        s.claim_v1 = false;
+    }
+    s.title %= 7;
+    s.cgi %= 6;
+    s.intent %= 6;
+    if s.intent == 5 && !o.allow_update {
+        s.intent = 3;
+    }
+    if (s.intent == 3 || s.intent == 4) && !o.allow_edit {
+        s.intent = 1;
+    }
+    s.n_assertions = s.n_assertions.min(o.max_assertions);
+    s.n_ingredients = s.n_ingredients.min(o.max_ingredients);
+    s.size_class %= 6;
+    if s.size_class == 3 && !o.allow_huge {
+        s.size_class = 2;
+    }
+    s.hash_alg %= 4;
+    if !o.allow_hash_alg {
+        s.hash_alg = 0;
+    }
+    s.thumb %= 2;
+    s.resources %= 3;
+    if !o.allow_resources {
+        s.resources = 0;
+        s.thumb = 0;
+    }
+    if !o.allow_redactions {
+        s.redact = false;
+    }
+    if s.claim_v1 {
+        // a v1 claim cannot carry v2-claim ingredients ("ingredient version too new"): the harness-signed
+        // assets (redaction targets, Update sources) are v2, so these features are v2-only
+        s.redact = false;
+        if s.intent == 5 {
+            s.intent = 3;
+        }
+    } else if s.cgi == 4 {
+        // claim v2 allows exactly one claim_generator_info entry
+        s.cgi = 3;
+    }
+    if s.intent == 5 {
+        // update manifests: exactly one (parent) ingredient, no thumbnail, restricted actions
+        s.n_ingredients = 0;
+        s.thumb = 0;
+        s.redact = false;
+    }
+}
+
+pub fn definition_strategy(opts: DefOpts) -> impl Strategy<Value = GenDef> {
+    let o = opts.clone();
+    spec_strategy(opts).prop_map(move |s| expand_with(&s, &o))
+}
+
+// ------------------------------------------------------------------------------------------------
+// value generators
+// ------------------------------------------------------------------------------------------------
+
+const UNICODE_BITS: [&str; 12] = [
+    "é", "ß", "Ω", "测试", "日本語", "한글", "🎨", "👩‍🚀", "عربى", "עברית", "\u{200b}", "Ａ",
+];
+const ASCII_WORDS: [&str; 10] = [
+    "alpha", "bravo", "charlie", "delta", "echo", "foxtrot", "golf", "hotel", "india", "juliet",
+];
+
+fn ascii_string(r: &mut SplitMix64, len: usize) -> String {
+    let mut s = String::with_capacity(len);
+    while s.len() < len {
+        let c = b"abcdefghijklmnopqrstuvwxyzABCDEFGHIJKLMNOPQRSTUVWXYZ0123456789 _-."[r.usize(66)];
+        s.push(c as char);
+    }
+    s
+}
+
+/// String whose UTF-8 length is exactly `len` bytes, with some multi-byte characters when `unicode`.
+fn sized_string(r: &mut SplitMix64, len: usize, unicode: bool) -> String {
+    let mut s = String::with_capacity(len);
+    while s.len() < len {
+        let left = len - s.len();
+        if unicode && left >= 4 && r.chance(1, 6) {
+            let bit = UNICODE_BITS[r.usize(UNICODE_BITS.len())];
+            if bit.len() <= left {
+                s.push_str(bit);
+                continue;
+            }
+        }
+        let c = b"abcdefghijklmnopqrstuvwxyz0123456789 "[r.usize(37)];
+        s.push(c as char);
+    }
+    s
+}
+
+fn special_string(r: &mut SplitMix64) -> String {
+    let pool = [
+        "\"quoted\"", "a&b", "<tag attr='x'>", "back\\slash", "line\nbreak", "tab\there", "nul\u{0}byte",
+        "/slash/", "%41%00", "\u{7f}", "\r\n", "{\"json\":1}", "\u{feff}bom", "\u{1}\u{2}",
+    ];
+    let n = 1 + r.usize(4);
+    let mut s = String::new();
+    for _ in 0..n {
+        s.push_str(pool[r.usize(pool.len())]);
+        s.push(' ');
+    }
+    s
+}
+
+fn boundary_len(r: &mut SplitMix64, class: u8) -> usize {
+    match class {
+        1 => *r.pick(&[22usize, 23, 24, 25]),
+        2 => *r.pick(&[254usize, 255, 256, 257]),
+        3 => *r.pick(&[65534usize, 65535, 65536, 65537]),
+        _ => r.usize(12),
+    }
+}
+
+fn boundary_of(len: usize) -> u32 {
+    if len >= 65536 {
+        65536
+    } else if len >= 256 {
+        256
+    } else if len >= 24 {
+        24
+    } else {
+        0
+    }
+}
+
+fn gen_int(r: &mut SplitMix64) -> Value {
+    let pool: [i128; 26] = [
+        0, 1, 23, 24, 25, 255, 256, 65535, 65536, 4294967295, 4294967296, i64::MAX as i128, 1099511627776, -1, -24,
+        -25, -256, -257, -65536, -65537, -4294967296, -4294967297, i64::MIN as i128, 42, 1000000, -1000000,
+    ];
+    let v = pool[r.usize(pool.len())];
+    if v > i64::MAX as i128 {
+        json!(v as u64)
+    } else {
+        json!(v as i64)
+    }
+}
+
+fn gen_float(r: &mut SplitMix64) -> Value {
+    let pool = [
+        0.5f64, 1.5, -2.25, 0.1, 3.141592653589793, 1e10, 1.0e-7, 65504.0, 65505.5, 1e300, -1e-300, 2.5e-8, 100000.25,
+        16777217.5, 0.333333333333, -0.75,
+    ];
+    json!(pool[r.usize(pool.len())])
+}
+
+fn gen_scalar(r: &mut SplitMix64) -> Value {
+    match r.usize(10) {
+        0 => Value::Null,
+        1 => json!(r.bool()),
+        2 | 3 => gen_int(r),
+        4 => gen_float(r),
+        5 => {
+            let n = r.usize(30);
+            json!(sized_string(r, n, true))
+        }
+        6 => json!(special_string(r)),
+        7 => json!(""),
+        _ => {
+            let n = 1 + r.usize(10);
+            json!(ascii_string(r, n))
+        }
+    }
+}
+
+fn gen_key(r: &mut SplitMix64, i: usize) -> String {
+    match r.usize(12) {
+        0 => format!("ключ{i}"),
+        1 => format!("k.{i}.dot"),
+        2 => format!("k {i} space"),
+        3 => format!("@k{i}"),
+        4 => format!("k{i}:colon"),
+        5 => format!("K{i}_UPPER"),
+        _ => format!("k{i}"),
+    }
+}
+
+fn gen_value(r: &mut SplitMix64, depth: u32) -> Value {
+    if depth == 0 || r.chance(1, 2) {
+        return gen_scalar(r);
+    }
+    if r.bool() {
+        let n = r.usize(5);
+        Value::Array((0..n).map(|_| gen_value(r, depth - 1)).collect())
+    } else {
+        let n = r.usize(5);
+        let mut m = Map::new();
+        for i in 0..n {
+            m.insert(gen_key(r, i), gen_value(r, depth - 1));
+        }
+        Value::Object(m)
+    }
+}
+
+/// A payload for a custom assertion; returns (value, largest boundary crossed).
+fn gen_payload(r: &mut SplitMix64, class: u8) -> (Value, u32) {
+    match class {
+        1 | 2 | 3 => {
+            let len = boundary_len(r, class);
+            let shape = if class == 3 { r.usize(5) } else { r.usize(6) };
+            let v = match shape {
+                // text string of exactly `len` bytes
+                0 => json!({ "text": sized_string(r, len, false), "n": 1 }),
+                1 => json!({ "text": sized_string(r, len, true) }),
+                // array with `len` items (small ints: displayed as base64 by json(), hence typed accessors)
+                2 => json!({ "items": (0..len).map(|i| json!((i % 251) as u64)).collect::<Vec<Value>>() }),
+                // array of mixed scalars
+                3 => json!({ "items": (0..len).map(|i| if i % 3 == 0 { json!(format!("s{i}")) } else { json!(i as u64 * 7) }).collect::<Vec<Value>>(), "flag": true }),
+                // text string as the whole payload
+                4 => json!(sized_string(r, len, true)),
+                // map with `len` members (not for the 64 K class)
+                _ => {
+                    let mut m = Map::new();
+                    for i in 0..len {
+                        m.insert(format!("k{i}"), json!(i as u64));
+                    }
+                    Value::Object(m)
+                }
+            };
+            (v, boundary_of(len))
+        }
+        4 => {
+            // deep nesting
+            let depth = 4 + r.usize(12);
+            let mut v = gen_scalar(r);
+            for i in 0..depth {
+                v = if i % 2 == 0 { json!({ "d": v, "i": i as u64 }) } else { json!([v, i as u64]) };
+            }
+            (json!({ "deep": v }), 0)
+        }
+        5 => {
+            // non-map top level
+            let v = match r.usize(5) {
+                0 => json!(ascii_string(r, 9)),
+                1 => gen_int(r),
+                2 => json!([1, "two", 3.5, null, true]),
+                3 => json!(r.bool()),
+                _ => Value::Array((0..r.usize(6)).map(|_| gen_scalar(r)).collect()),
+            };
+            (v, 0)
+        }
+        _ => {
+            let mut m = Map::new();
+            let n = 1 + r.usize(5);
+            for i in 0..n {
+                m.insert(gen_key(r, i), gen_value(r, 3));
+            }
+            (Value::Object(m), 0)
+        }
+    }
+}
+
+fn gen_title(r: &mut SplitMix64, kind: u8) -> Option<String> {
+    match kind {
+        1 => None,
+        2 => Some(String::new()),
+        3 => {
+            let mut s = String::new();
+            for _ in 0..(2 + r.usize(5)) {
+                s.push_str(UNICODE_BITS[r.usize(UNICODE_BITS.len())]);
+                s.push(' ');
+            }
+            s.push_str(".jpg");
+            Some(s)
+        }
+        4 => {
+            let n = 300 + r.usize(1800);
+            Some(sized_string(r, n, true))
+        }
+        5 => Some(special_string(r)),
+        6 => {
+            let n = *r.pick(&[23usize, 24, 255, 256]);
+            Some(sized_string(r, n, false))
+        }
+        _ => Some(format!("{} {}.jpg", ASCII_WORDS[r.usize(10)], r.below(1000))),
+    }
+}
+
+const SOURCE_TYPES: [&str; 8] = [
+    "http://c2pa.org/digitalsourcetype/empty",
+    "http://cv.iptc.org/newscodes/digitalsourcetype/digitalCapture",
+    "http://cv.iptc.org/newscodes/digitalsourcetype/trainedAlgorithmicMedia",
+    "http://cv.iptc.org/newscodes/digitalsourcetype/compositeCapture",
+    "http://cv.iptc.org/newscodes/digitalsourcetype/digitalCreation",
+    "http://cv.iptc.org/newscodes/digitalsourcetype/screenCapture",
+    "http://c2pa.org/digitalsourcetype/trainedAlgorithmicData",
+    "http://cv.iptc.org/newscodes/digitalsourcetype/humanEdits",
+];
+
+fn gen_cgi(r: &mut SplitMix64, kind: u8) -> Vec<Value> {
+    match kind {
+        1 => vec![],
+        2 => vec![json!({ "name": format!("verif-{}", ASCII_WORDS[r.usize(10)]) })],
+        3 => {
+            let mut m = Map::new();
+            m.insert("name".into(), json!("verif harness extra"));
+            m.insert("version".into(), json!(format!("{}.{}.{}", r.below(10), r.below(100), r.below(1000))));
+            if r.bool() {
+                m.insert("operating_system".into(), json!("verifOS 1.0"));
+            }
+            let n = 1 + r.usize(4);
+            for i in 0..n {
+                let v = match r.usize(5) {
+                    0 => json!(r.below(100000)),
+                    1 => json!(r.bool()),
+                    2 => json!({ "nested": ascii_string(r, 5), "n": [1, 2, 3] }),
+                    3 => json!(sized_string(r, 40, true)),
+                    _ => json!(ascii_string(r, 8)),
+                };
+                m.insert(format!("org.verif.extra{i}"), v);
+            }
+            vec![Value::Object(m)]
+        }
+        4 => vec![
+            json!({ "name": "verif-first", "version": "1.0" }),
+            json!({ "name": "verif-second", "version": "2.0-beta", "org.verif.tag": "second" }),
+        ],
+        5 => vec![json!({ "name": format!("Vérif Harness {} 测试", r.below(100)), "version": "0.1 (build 7)" })],
+        _ => vec![json!({ "name": "verif-harness", "version": "0.1" })],
+    }
+}
+
+const CUSTOM_LABELS: [&str; 10] = [
+    "org.verif.note",
+    "org.verif.data",
+    "com.example.verif.thing",
+    "org.verif.a-b_c",
+    "io.verif.x1.y2",
+    "org.verif.very.long.reverse.domain.label.with.many.parts",
+    "org.verif.CamelCase",
+    "net.verif.n0",
+    "org.verif.blob",
+    "org.verif.list",
+];
+
+fn gen_action(r: &mut SplitMix64, name: &str) -> Value {
+    let mut m = Map::new();
+    m.insert("action".into(), json!(name));
+    if r.chance(1, 3) {
+        m.insert("description".into(), json!(sized_string(r, 12, true)));
+    }
+    if r.chance(1, 3) {
+        let mut p = Map::new();
+        p.insert("description".into(), json!(ascii_string(r, 10)));
+        if r.bool() {
+            p.insert("org.verif.param".into(), json!(r.below(1000)));
+        }
+        m.insert("parameters".into(), Value::Object(p));
+    }
+    if r.chance(1, 4) {
+        m.insert("softwareAgent".into(), json!({ "name": "verif-agent", "version": "3.2" }));
+    }
+    Value::Object(m)
+}
+
+const EDIT_ACTIONS: [&str; 8] = [
+    "c2pa.edited",
+    "c2pa.color_adjustments",
+    "c2pa.cropped",
+    "c2pa.filtered",
+    "c2pa.resized",
+    "c2pa.drawing",
+    "c2pa.orientation",
+    "org.verif.custom_action",
+];
+
+// ------------------------------------------------------------------------------------------------
+// signed ingredient assets (made once per process)
+// ------------------------------------------------------------------------------------------------
+
+/// Assets the harness signs itself to serve as "ingredient with a manifest":
+/// kind 0 = small PNG with a custom assertion, kind 1 = small JPEG-less WebP, kind 2 = PNG signed twice (chain).
+#[derive(Clone)]
+pub struct SignedAsset {
+    pub mime: &'static str,
+    pub bytes: Vec<u8>,
+    /// label of the active manifest (needed to build redaction URIs)
+    pub label: String,
+    /// assertion of the active manifest that may be redacted
+    pub redactable: &'static str,
+}
+
+static SIGNED: Mutex<Vec<Option<SignedAsset>>> = Mutex::new(Vec::new());
+
+pub const SIGNED_KINDS: u8 = 3;
+
+fn make_signed(kind: u8) -> SignedAsset {
+    use crate::sdk;
+    let (mime, file): (&'static str, &str) = match kind % SIGNED_KINDS {
+        1 => ("image/webp", "test.webp"),
+        _ => ("image/png", "libpng-test.png"),
+    };
+    let def = json!({
+        "title": format!("harness-signed-{kind}"),
+        "claim_generator_info": [{ "name": "verif-ingredient-maker", "version": "0.1" }],
+        "assertions": [
+            { "label": "org.verif.note", "data": { "note": "ingredient note", "n": kind } },
+            { "label": "org.verif.keep", "data": { "keep": true } }
+        ]
+    });
+    let signer = sdk::signer(if kind % 2 == 0 { "es256" } else { "ps256" });
+    let src = sdk::fixture(file);
+    let mut bytes = sdk::sign_with(
+        sdk::context(),
+        &def,
+        Some(BuilderIntent::Create(DigitalSourceType::DigitalCapture)),
+        signer.as_ref(),
+        mime,
+        &src,
+    )
+    .expect("harness-signed ingredient: first signature");
+    if kind % SIGNED_KINDS == 2 {
+        let def2 = json!({
+            "title": "harness-signed-chain",
+            "claim_generator_info": [{ "name": "verif-ingredient-maker", "version": "0.2" }],
+            "assertions": [ { "label": "org.verif.note", "data": { "note": "second generation" } } ]
+        });
+        bytes = sdk::sign_with(sdk::context(), &def2, Some(BuilderIntent::Edit), signer.as_ref(), mime, &bytes)
+            .expect("harness-signed ingredient: second signature");
+    }
+    let reader = sdk::read(mime, &bytes).expect("harness-signed ingredient must be readable");
+    let label = reader.active_label().expect("active label").to_string();
+    SignedAsset { mime, bytes, label, redactable: "org.verif.note" }
+}
+
+/// The harness-signed ingredient asset of the given kind (signed on first use, then cached).
+pub fn signed_asset(kind: u8) -> SignedAsset {
+    let k = (kind % SIGNED_KINDS) as usize;
+    let mut g = SIGNED.lock().unwrap();
+    if g.len() < SIGNED_KINDS as usize {
+        g.resize(SIGNED_KINDS as usize, None);
+    }
+    if g[k].is_none() {
+        g[k] = Some(make_signed(k as u8));
+    }
+    g[k].clone().unwrap()
+}
+
+/// (mime, bytes) of a stream ingredient source.
+pub fn ingredient_bytes(src: &IngSource) -> Option<(String, Vec<u8>)> {
+    match src {
+        IngSource::JsonOnly => None,
+        IngSource::Unsigned(f, m) | IngSource::SignedFixture(f, m) => Some((m.clone(), crate::sdk::fixture(f))),
+        IngSource::HarnessSigned(k) => {
+            let a = signed_asset(*k);
+            Some((a.mime.to_string(), a.bytes))
+        }
+    }
+}
+
+// ------------------------------------------------------------------------------------------------
+// expansion
+// ------------------------------------------------------------------------------------------------
+
+pub fn expand(spec: &DefSpec) -> GenDef {
+    expand_with(spec, &DefOpts { allow_update: true, ..DefOpts::default() })
+}
+
+pub fn expand_with(spec_in: &DefSpec, opts: &DefOpts) -> GenDef {
+    let mut spec = spec_in.clone();
+    normalise(&mut spec, opts);
+    let spec = &spec;
+    let mut r = SplitMix64::new(spec.seed ^ 0xD1F6_E0DE);
+    let mut features: Vec<String> = vec![];
+    let mut def = Map::new();
+    let mut exp = Expectation::default();
+    let mut resources: Vec<(String, Vec<u8>)> = vec![];
+    let mut boundary = 0u32;
+    let v1 = spec.claim_v1;
+    exp.claim_version = if v1 { 1 } else { 2 };
+
+    // ---- claim version ---------------------------------------------------------------------
+    if v1 {
+        def.insert("claim_version".into(), json!(1));
+        features.push("claim_v1".into());
+    } else if r.chance(1, 3) {
+        def.insert("claim_version".into(), json!(2));
+    }
+
+    // ---- title -----------------------------------------------------------------------------
+    let title = gen_title(&mut r, spec.title);
+    if let Some(t) = &title {
+        def.insert("title".into(), json!(t));
+        boundary = boundary.max(boundary_of(t.len()).min(256));
+    }
+    features.push(format!("title_{}", ["ascii", "absent", "empty", "unicode", "long", "special", "boundary"][spec.title as usize]));
+    exp.title = title;
+
+    // ---- claim generator info ----------------------------------------------------------------
+    let mut cgi = gen_cgi(&mut r, spec.cgi);
+    features.push(format!("cgi_{}", ["plain", "absent", "name_only", "extras", "two", "unicode"][spec.cgi as usize]));
+    if spec.resources >= 2 && !cgi.is_empty() {
+        // claim generator icon as a resource
+        let id = "verif-icon.svg".to_string();
+        let bytes = format!("<svg xmlns=\"http://www.w3.org/2000/svg\"><!-- {} --></svg>", ascii_string(&mut r, 40)).into_bytes();
+        cgi[0]["icon"] = json!({ "format": "image/svg+xml", "identifier": id });
+        resources.push((id, bytes.clone()));
+        exp.resources.push(ExpResource { kind: ResKind::GeneratorIcon(0), format: "image/svg+xml".into(), bytes });
+        features.push("resource_icon".into());
+    }
+    if !cgi.is_empty() {
+        def.insert("claim_generator_info".into(), Value::Array(cgi.clone()));
+    }
+    exp.claim_generator_info = cgi;
+
+    // ---- vendor, hash algorithm --------------------------------------------------------------
+    if spec.vendor {
+        def.insert("vendor".into(), json!("verif"));
+        exp.vendor = Some("verif".into());
+        features.push("vendor".into());
+    }
+    if spec.hash_alg > 0 {
+        let a = ["sha256", "sha384", "sha512"][(spec.hash_alg - 1) as usize];
+        def.insert("hash_alg".into(), json!(a));
+        exp.hash_alg = Some(a.into());
+        features.push(format!("hash_{a}"));
+    }
+
+    // ---- intent --------------------------------------------------------------------------------
+    let intent = match spec.intent {
+        0 => IntentKind::Create(SOURCE_TYPES[0].to_string()),
+        1 => IntentKind::Create(SOURCE_TYPES[r.usize(SOURCE_TYPES.len())].to_string()),
+        2 => IntentKind::None,
+        3 | 4 => IntentKind::Edit,
+        _ => IntentKind::Update,
+    };
+    features.push(format!("intent_{}", intent.name()));
+    let is_create = matches!(intent, IntentKind::Create(_));
+    let is_update = intent == IntentKind::Update;
+
+    // ---- ingredients ---------------------------------------------------------------------------
+    let mut plans: Vec<IngPlan> = vec![];
+    let mut have_parent = false;
+    let mut redact_target: Option<String> = None;
+    let mut n_ing = spec.n_ingredients as usize;
+    if spec.intent == 4 {
+        n_ing = n_ing.max(1);
+    }
+    if spec.redact && opts.allow_signed_ingredients {
+        n_ing = n_ing.max(1);
+    }
+    for i in 0..n_ing {
+        let mut src = match r.usize(8) {
+            0 | 1 | 2 => IngSource::JsonOnly,
+            3 => IngSource::Unsigned("libpng-test.png".into(), "image/png".into()),
+            4 => IngSource::Unsigned("test.webp".into(), "image/webp".into()),
+            5 => IngSource::SignedFixture((*r.pick(&["C.jpg", "CA.jpg"])).to_string(), "image/jpeg".into()),
+            _ => IngSource::HarnessSigned(r.below(SIGNED_KINDS as u64) as u8),
+        };
+        if spec.redact && opts.allow_signed_ingredients && i == 0 {
+            src = IngSource::HarnessSigned(r.below(SIGNED_KINDS as u64) as u8);
+        }
+        if v1 && matches!(src, IngSource::HarnessSigned(_)) {
+            src = IngSource::SignedFixture((*r.pick(&["C.jpg", "CA.jpg"])).to_string(), "image/jpeg".into());
+        }
+        if !opts.allow_signed_ingredients && matches!(src, IngSource::SignedFixture(..) | IngSource::HarnessSigned(_)) {
+            src = IngSource::Unsigned("libpng-test.png".into(), "image/png".into());
+        }
+        // relationship: one parent at most, never with a Create intent or a created action (intent 2)
+        let want_parent = spec.intent == 4 && i == 0;
+        let relationship = if want_parent && !have_parent {
+            have_parent = true;
+            "parentOf"
+        } else if r.chance(1, 4) {
+            "inputTo"
+        } else {
+            "componentOf"
+        };
+        let ing_title = match r.usize(6) {
+            0 if !v1 && src == IngSource::JsonOnly => None,
+            1 => Some(format!("{} 成分 {i}.png", UNICODE_BITS[r.usize(UNICODE_BITS.len())])),
+            2 => Some(special_string(&mut r)),
+            _ => Some(format!("ingredient-{i}-{}.png", r.below(1000))),
+        };
+        let mut j = Map::new();
+        if let Some(t) = &ing_title {
+            j.insert("title".into(), json!(t));
+        }
+        j.insert("relationship".into(), json!(relationship));
+        let fmt: Option<String> = match &src {
+            IngSource::JsonOnly => {
+                let f = *r.pick(&["image/png", "image/jpeg", "application/octet-stream", "video/mp4"]);
+                j.insert("format".into(), json!(f));
+                if r.bool() {
+                    j.insert("instance_id".into(), json!(format!("xmp:iid:verif-{i}-{}", r.below(100000))));
+                }
+                Some(f.to_string())
+            }
+            IngSource::Unsigned(_, m) | IngSource::SignedFixture(_, m) => Some(m.clone()),
+            IngSource::HarnessSigned(k) => Some(signed_asset(*k).mime.to_string()),
+        };
+        let description = if r.chance(1, 4) { Some(sized_string(&mut r, 30, true)) } else { None };
+        if let Some(d) = &description {
+            j.insert("description".into(), json!(d));
+        }
+        let info_uri = if r.chance(1, 5) { Some(format!("https://verif.example/info/{i}?q=1&r=2")) } else { None };
+        if let Some(u) = &info_uri {
+            j.insert("informational_URI".into(), json!(u));
+        }
+        if r.chance(1, 3) {
+            j.insert("label".into(), json!(format!("verif_ing_{i}")));
+        }
+        // resources attached to a JSON-only ingredient
+        if spec.resources >= 1 && src == IngSource::JsonOnly {
+            if r.bool() {
+                let id = format!("ing-thumb-{i}.jpg");
+                let n = 100 + r.usize(3000);
+                let bytes = fake_jpeg(&mut r, n);
+                j.insert("thumbnail".into(), json!({ "format": "image/jpeg", "identifier": id }));
+                resources.push((id, bytes.clone()));
+                exp.resources.push(ExpResource { kind: ResKind::IngredientThumbnail(i), format: "image/jpeg".into(), bytes });
+                features.push("resource_ingredient_thumbnail".into());
+            }
+            if r.chance(1, 3) {
+                let id = format!("ing-data-{i}.txt");
+                let bytes = sized_string(&mut r, 64, true).into_bytes();
+                j.insert("data".into(), json!({ "format": "text/plain", "identifier": id }));
+                resources.push((id, bytes.clone()));
+                exp.resources.push(ExpResource { kind: ResKind::IngredientData(i), format: "text/plain".into(), bytes });
+                features.push("resource_ingredient_data".into());
+            }
+        }
+        let has_manifest = matches!(src, IngSource::SignedFixture(..) | IngSource::HarnessSigned(_));
+        if let IngSource::HarnessSigned(k) = &src {
+            if spec.redact && redact_target.is_none() {
+                let a = signed_asset(*k);
+                redact_target = Some(format!("self#jumbf=/c2pa/{}/c2pa.assertions/{}", a.label, a.redactable));
+            }
+        }
+        features.push(
+            match &src {
+                IngSource::JsonOnly => "ingredient_json_only",
+                IngSource::Unsigned(..) => "ingredient_unsigned_stream",
+                IngSource::SignedFixture(..) => "ingredient_signed_fixture",
+                IngSource::HarnessSigned(_) => "ingredient_harness_signed",
+            }
+            .to_string(),
+        );
+        plans.push(IngPlan { json: Value::Object(j), source: src });
+        // remember expectation alongside (re-ordered below)
+        exp.ingredients.push(ExpIngredient {
+            title: ing_title,
+            format: fmt,
+            relationship: relationship.to_string(),
+            has_manifest,
+            description,
+            informational_uri: info_uri,
+        });
+    }
+    // reported order: definition ingredients first, then the ones added from streams
+    let mut order: Vec<usize> = (0..plans.len()).filter(|i| plans[*i].source == IngSource::JsonOnly).collect();
+    order.extend((0..plans.len()).filter(|i| plans[*i].source != IngSource::JsonOnly));
+    let old_exp = std::mem::take(&mut exp.ingredients);
+    let mut pos_of = vec![0usize; plans.len()];
+    for (new, old) in order.iter().enumerate() {
+        pos_of[*old] = new;
+        exp.ingredients.push(old_exp[*old].clone());
+    }
+    for res in exp.resources.iter_mut() {
+        match &mut res.kind {
+            ResKind::IngredientThumbnail(i) | ResKind::IngredientData(i) => *i = pos_of[*i],
+            _ => {}
+        }
+    }
+    let json_only: Vec<Value> = plans.iter().filter(|p| p.source == IngSource::JsonOnly).map(|p| p.json.clone()).collect();
+    if !json_only.is_empty() {
+        def.insert("ingredients".into(), Value::Array(json_only));
+    }
+    let stream_ingredients: Vec<IngPlan> = plans.into_iter().filter(|p| p.source != IngSource::JsonOnly).collect();
+    exp.auto_parent = matches!(intent, IntentKind::Edit | IntentKind::Update) && !have_parent;
+    let _ = is_create;
+
+    // ---- redactions ----------------------------------------------------------------------------
+    if let Some(uri) = &redact_target {
+        def.insert("redactions".into(), json!([uri]));
+        exp.redactions = vec![uri.clone()];
+        features.push("redaction".into());
+    }
+
+    // ---- assertions ----------------------------------------------------------------------------
+    let mut assertions: Vec<Value> = vec![];
+    let mut used_labels: Vec<String> = vec![];
+    let mut have_actions = false;
+    // actions are mandatory when there is no intent (v2 rule) and when a redaction is listed
+    let need_actions = intent == IntentKind::None || redact_target.is_some();
+    let n_assert = spec.n_assertions as usize;
+    let actions_at = if need_actions || (n_assert > 0 && r.chance(1, 3)) { Some(r.usize(n_assert.max(1))) } else { None };
+    let total = if need_actions { n_assert.max(1) } else { n_assert };
+    for i in 0..total {
+        if actions_at == Some(i) && !have_actions {
+            have_actions = true;
+            let mut list: Vec<Value> = vec![];
+            if intent == IntentKind::None || (is_create && r.chance(1, 3)) {
+                let mut a = gen_action(&mut r, "c2pa.created");
+                a["digitalSourceType"] = json!(SOURCE_TYPES[r.usize(SOURCE_TYPES.len())]);
+                list.push(a);
+            }
+            if !is_update {
+                for _ in 0..r.usize(4) {
+                    let name = EDIT_ACTIONS[r.usize(EDIT_ACTIONS.len())];
+                    list.push(gen_action(&mut r, name));
+                }
+            }
+            if let Some(uri) = &redact_target {
+                list.push(json!({ "action": "c2pa.redacted", "reason": "c2pa.PII.present", "parameters": { "redacted": uri } }));
+            }
+            let payload = json!({ "actions": list });
+            assertions.push(json!({ "label": "c2pa.actions", "data": payload }));
+            exp.assertions.push(ExpAssertion { label: "c2pa.actions".into(), payload, how: Match::Actions, json_kind: false, created: false });
+            features.push("supplied_actions".into());
+            continue;
+        }
+        let kind = r.usize(20);
+        if kind == 0 && !used_labels.iter().any(|l| l == "c2pa.metadata") {
+            // standard metadata assertion (JSON-LD, allowed fields only)
+            let payload = json!({
+                "@context": { "exif": "http://ns.adobe.com/exif/1.0/", "dc": "http://purl.org/dc/elements/1.1/" },
+                "exif:GPSLatitude": format!("{},{}N", r.below(90), r.below(60)),
+                "dc:language": [sized_string(&mut r, 10, true)]
+            });
+            assertions.push(json!({ "label": "c2pa.metadata", "data": payload, "kind": "Json" }));
+            exp.assertions.push(ExpAssertion { label: "c2pa.metadata".into(), payload, how: Match::Exact, json_kind: true, created: false });
+            used_labels.push("c2pa.metadata".into());
+            features.push("standard_metadata".into());
+            continue;
+        }
+        if kind == 1 {
+            // custom metadata assertion (label ends in .metadata ⇒ JSON-LD by the specification)
+            let label = "org.verif.custom.metadata".to_string();
+            let payload = json!({
+                "@context": { "verif": "https://verif.example/ns/1.0/" },
+                "verif:field": sized_string(&mut r, 16, true),
+                "verif:count": r.below(100000)
+            });
+            assertions.push(json!({ "label": label, "data": payload, "kind": "Json" }));
+            exp.assertions.push(ExpAssertion { label: label.clone(), payload, how: Match::Exact, json_kind: true, created: false });
+            used_labels.push(label);
+            features.push("custom_metadata".into());
+            continue;
+        }
+        if kind == 2 && !used_labels.iter().any(|l| l == "stds.schema-org.CreativeWork") {
+            let payload = json!({
+                "@context": "http://schema.org/",
+                "@type": "CreativeWork",
+                "author": [ { "@type": "Person", "name": sized_string(&mut r, 8, true) } ]
+            });
+            assertions.push(json!({ "label": "stds.schema-org.CreativeWork", "data": payload, "kind": "Json" }));
+            exp.assertions.push(ExpAssertion { label: "stds.schema-org.CreativeWork".into(), payload, how: Match::Members, json_kind: true, created: false });
+            used_labels.push("stds.schema-org.CreativeWork".into());
+            features.push("creative_work".into());
+            continue;
+        }
+        // custom assertion; labels repeat on purpose (instances)
+        let label = if !used_labels.is_empty() && r.chance(1, 4) {
+            let cands: Vec<&String> = used_labels.iter().filter(|l| CUSTOM_LABELS.contains(&l.as_str())).collect();
+            if cands.is_empty() {
+                CUSTOM_LABELS[r.usize(CUSTOM_LABELS.len())].to_string()
+            } else {
+                cands[r.usize(cands.len())].clone()
+            }
+        } else {
+            CUSTOM_LABELS[r.usize(CUSTOM_LABELS.len())].to_string()
+        };
+        if used_labels.contains(&label) {
+            features.push("repeated_label".into());
+        }
+        used_labels.push(label.clone());
+        // the chosen size class applies to the first custom assertion, later ones are mostly small
+        let class = if i == 0 || r.chance(1, 4) { spec.size_class } else { 0 };
+        let class = if class == 3 && boundary >= 65536 { 2 } else { class };
+        let (payload, b) = gen_payload(&mut r, class);
+        boundary = boundary.max(b);
+        let json_kind = r.chance(1, 4);
+        let created = !v1 && r.chance(1, 5);
+        let mut a = Map::new();
+        a.insert("label".into(), json!(label));
+        a.insert("data".into(), payload.clone());
+        if json_kind {
+            a.insert("kind".into(), json!("Json"));
+            features.push("json_kind".into());
+        } else if r.chance(1, 6) {
+            a.insert("kind".into(), json!("Cbor"));
+        }
+        if created {
+            a.insert("created".into(), json!(true));
+            features.push("created_flag".into());
+        }
+        assertions.push(Value::Object(a));
+        exp.assertions.push(ExpAssertion { label, payload, how: Match::Exact, json_kind, created });
+        features.push("custom_assertion".into());
+    }
+    if !assertions.is_empty() {
+        def.insert("assertions".into(), Value::Array(assertions));
+    }
+    if boundary > 0 {
+        features.push(format!("cbor_boundary_{boundary}"));
+    }
+
+    // ---- explicit claim thumbnail --------------------------------------------------------------
+    if spec.thumb == 1 && !is_update {
+        let id = "verif-thumb.jpg".to_string();
+        let n = *r.pick(&[200usize, 255, 256, 4000, 65535, 65536, 70000]);
+        let bytes = fake_jpeg(&mut r, n);
+        def.insert("thumbnail".into(), json!({ "format": "image/jpeg", "identifier": id }));
+        resources.push((id, bytes.clone()));
+        exp.resources.push(ExpResource { kind: ResKind::ClaimThumbnail, format: "image/jpeg".into(), bytes });
+        features.push("resource_claim_thumbnail".into());
+    }
+
+    features.sort();
+    features.dedup();
+    GenDef { json: Value::Object(def), intent, expect: exp, features, stream_ingredients, resources, boundary }
+}
+
+/// Bytes that start like a JPEG (the SDK stores thumbnails verbatim; nothing decodes them).
+fn fake_jpeg(r: &mut SplitMix64, n: usize) -> Vec<u8> {
+    let mut v = vec![0xFF, 0xD8, 0xFF, 0xE0, 0x00, 0x10, b'J', b'F', b'I', b'F', 0x00];
+    v.extend(r.bytes(n.saturating_sub(13)));
+    v.extend([0xFF, 0xD9]);
+    v
+}
+
+impl GenDef {
+    /// The definition with `format` set (the SDK overwrites it with the format passed to `sign`).
+    pub fn json_with_format(&self, mime: &str) -> Value {
+        let mut j = self.json.clone();
+        j["format"] = json!(mime);
+        j
+    }
+
+    pub fn has_signed_ingredient(&self) -> bool {
+        self.expect.ingredients.iter().any(|i| i.has_manifest)
+    }
+
+    /// Feed the generated data into a `Builder`: definition, intent, stream ingredients, resources.
+    pub fn builder(&self, ctx: Context, definition: &Value) -> c2pa::Result<Builder> {
+        let mut b = Builder::from_context(ctx).with_definition(definition.to_string())?;
+        self.populate(&mut b)?;
+        Ok(b)
+    }
+
+    /// Same as [`GenDef::builder`] for a builder that already has its definition.
+    pub fn populate(&self, b: &mut Builder) -> c2pa::Result<()> {
+        if let Some(i) = self.intent.to_builder_intent() {
+            b.set_intent(i);
+        }
+        for (id, bytes) in &self.resources {
+            b.add_resource(id, Cursor::new(bytes.clone()))?;
+        }
+        for p in &self.stream_ingredients {
+            if let Some((mime, bytes)) = ingredient_bytes(&p.source) {
+                b.add_ingredient_from_stream(p.json.to_string(), &mime, &mut Cursor::new(bytes))?;
+            }
+        }
+        Ok(())
+    }
+}
+
+// ------------------------------------------------------------------------------------------------
+// comparison helpers (documented CBOR→JSON mapping: integers/floats by numeric value, maps unordered)
+// ------------------------------------------------------------------------------------------------
+
+/// JSON equivalence after a CBOR round trip: objects unordered, arrays ordered, numbers compared by
+/// value (an integral float and the same integer are the same JSON number), everything else equal.
+pub fn json_equiv(a: &Value, b: &Value) -> bool {
+    match (a, b) {
+        (Value::Number(x), Value::Number(y)) => {
+            if let (Some(i), Some(j)) = (x.as_i64(), y.as_i64()) {
+                return i == j;
+            }
+            if let (Some(i), Some(j)) = (x.as_u64(), y.as_u64()) {
+                return i == j;
+            }
+            if x.is_f64() || y.is_f64() {
+                return match (x.as_f64(), y.as_f64()) {
+                    (Some(f), Some(g)) => f == g && (x.is_f64() == y.is_f64() || f.fract() == 0.0 && f.abs() < 9.0e15),
+                    _ => false,
+                };
+            }
+            false
+        }
+        (Value::Array(x), Value::Array(y)) => x.len() == y.len() && x.iter().zip(y).all(|(p, q)| json_equiv(p, q)),
+        (Value::Object(x), Value::Object(y)) => {
+            x.len() == y.len() && x.iter().all(|(k, v)| y.get(k).map(|w| json_equiv(v, w)).unwrap_or(false))
+        }
+        _ => a == b,
+    }
+}
+
+/// Every member of `supplied` (recursively for objects) is present in `reported` with an equivalent value.
+pub fn json_subset(supplied: &Value, reported: &Value) -> bool {
+    match (supplied, reported) {
+        (Value::Object(x), Value::Object(y)) => x.iter().all(|(k, v)| y.get(k).map(|w| json_subset(v, w)).unwrap_or(false)),
+        (Value::Array(x), Value::Array(y)) => x.len() == y.len() && x.iter().zip(y).all(|(p, q)| json_subset(p, q)),
+        _ => json_equiv(supplied, reported),
+    }
+}
+
+/// Short description of the first difference between two JSON values (for failure messages).
+pub fn first_diff(a: &Value, b: &Value, path: &str) -> Option<String> {
+    fn short(v: &Value) -> String {
+        let s = v.to_string();
+        if s.len() > 80 {
+            format!("{}…({} bytes)", s.chars().take(60).collect::<String>(), s.len())
+        } else {
+            s
+        }
+    }
+    match (a, b) {
+        (Value::Object(x), Value::Object(y)) => {
+            for (k, v) in x {
+                match y.get(k) {
+                    None => return Some(format!("{path}/{k}: missing on the right")),
+                    Some(w) => {
+                        if let Some(d) = first_diff(v, w, &format!("{path}/{k}")) {
+                            return Some(d);
+                        }
+                    }
+                }
+            }
+            for k in y.keys() {
+                if !x.contains_key(k) {
+                    return Some(format!("{path}/{k}: missing on the left"));
+                }
+            }
+            None
+        }
+        (Value::Array(x), Value::Array(y)) => {
+            if x.len() != y.len() {
+                return Some(format!("{path}: array length {} vs {}", x.len(), y.len()));
+            }
+            for (i, (p, q)) in x.iter().zip(y).enumerate() {
+                if let Some(d) = first_diff(p, q, &format!("{path}/{i}")) {
+                    return Some(d);
+                }
+            }
+            None
+        }
+        _ => {
+            if json_equiv(a, b) {
+                None
+            } else {
+                Some(format!("{path}: {} vs {}", short(a), short(b)))
+            }
+        }
+    }
+}
